@@ -655,7 +655,7 @@ func genBigGraph(t *rapid.T) bigCase {
 // them by small increments, so that with a handful of (expensive) checks per
 // shard many cases would be drawn twice.  Every case gets its own seed here.
 func TestBigGraphs(t *testing.T) {
-	cases := evid.Pick(32, 480)
+	cases := evid.Pick(32, 320)
 	shard, n := evid.Shard(), evid.NShards()
 	g := rapid.Custom(genBigGraph)
 	for i := 0; i < cases; i++ {
